@@ -13,7 +13,6 @@ import (
 	"runtime"
 	"sort"
 	"strings"
-	"sync" // nosim
 	"testing"
 	"testing/synctest"
 	"time"
@@ -37,7 +36,7 @@ type R struct {
 	W, F *simrt.Stream
 	T    *testing.T
 
-	mu         sync.Mutex // nosim
+	mu         simrt.HMutex
 	Viol       []Violation
 	notes      map[string]int
 	faults     map[string]*[2]int
